@@ -534,3 +534,30 @@ def expiry_step_scope(ctx, rid, which):
             run.instance(rid, {"fn": "update_wallet_state", "obligation": "step-5 cancel only for an entry that is not TxReverted", "edges": len(notrev)}, held=h2)
         if not h2:
             run.finding(Finding(rid, u3.id, "the expiry step cancels a payment that was confirmed once and reorganised away (TxReverted) and deletes its output: when it is mined again the entry stays cancelled", site=u3.loc()))
+
+
+def log_id_account(ctx, rid, only=None):
+    """A log id is drawn from the counter of the account the entry is saved under (entries are keyed by (account, id):
+    an id from another account's counter overwrites an existing entry of the destination account)."""
+    from ..callgraph import non_production
+    run = ctx.run
+    n = 0
+    for fid, f in sorted(ctx.db.fns.items()):
+        if non_production(fid) or (only and fid not in only):
+            continue
+        nx = cfg.find_calls(f, c.WOB + "next_tx_log_id")
+        sv = cfg.find_calls(f, c.WOB + "save_tx_log_entry")
+        if not nx or not sv:
+            continue
+        n += 1
+        def acct(o):
+            bl = vf.base_local_of_ref(f, o)
+            return (bl, frozenset(vf.producers(f, o)))
+        ids = {acct(t["a"][1]) for _b, t in nx}
+        svs = {acct(t["a"][2]) for _b, t in sv}
+        held = len(ids) == 1 and ids == svs
+        run.instance(rid, {"fn": pp.short(fid), "obligation": "next_tx_log_id(account) and save_tx_log_entry(.., account) name the same account operand"}, held=held)
+        if not held:
+            run.finding(Finding(rid, fid, "the log id is drawn from the counter of another account than the one the entry is saved under: with a non-active destination the new entry overwrites an existing entry of that account", site=c.site_of(f, nx[0][0])))
+    return n
+
